@@ -27,20 +27,114 @@ type TargetCase struct {
 	Pure   bool   `json:"pure_rhs"`
 }
 
+// MutCase: a builtin / operator applied to a number held in a local and to caller-supplied objects.
+type MutCase struct {
+	Fn  string `json:"fn"`  // formula text with %s for the operand
+	Val string `json:"val"` // decimal text of the operand
+}
+
+var c07Mut *eng.Kind[MutCase]
 var c07Prog *eng.Kind[ProgCase]
 var c07Target *eng.Kind[TargetCase]
 
 func init() {
 	c := eng.Register(&eng.Check{
-		ID:    "C07",
-		Title: "Locals bind and sequence left to right; caller data is never modified",
-		Rule: "every program up to n AST nodes from E := A | $v = E | E , E | [E, E] | rec(E, E) | c ? E : E | (E) | A + A over locals $a $b, the field x and literals, run on 5 initial data maps (empty, with x, with a pre-set local, none, and one holding a nested map, a slice and a number object); every history of up to 3 programs from a pool on one runner; every forbidden assignment target shape; compared with a store-passing reference evaluator (result, locals afterwards, order of recorded host calls) and with a deep identity+content snapshot of the non-$ part of the caller's map; distinct = distinct (result, store) classes",
+		ID:          "C07",
+		Title:       "Locals bind and sequence left to right; caller data is never modified",
+		Rule:        "every program up to n AST nodes from E := A | $v = E | E , E | [E, E] | rec(E, E) | c ? E : E | (E) | A + A over locals $a $b, the field x and literals, run on 5 initial data maps (empty, with x, with a pre-set local, none, and one holding a nested map, a slice and a number object); every history of up to 3 programs from a pool on one runner; every forbidden assignment target shape; compared with a store-passing reference evaluator (result, locals afterwards, order of recorded host calls) and with a deep identity+content snapshot of the non-$ part of the caller's map; distinct = distinct (result, store) classes",
 		TrustedBase: []string{"store-passing reference evaluator in checks/c07.go", "internal/ref/parse.go"},
 		Assumptions: []string{"arithmetic on non-numbers yields an unspecified value that is not compared (taint)", "side effects inside the right-hand side of a forbidden assignment are not judged"},
 		Run:         runC07,
 	})
 	c07Prog = eng.NewKind(c, "programs", judgeProg)
 	c07Target = eng.NewKind(c, "targets", judgeTarget)
+	c07Mut = eng.NewKind(c, "operand-mutation", judgeMut)
+}
+
+var c07Fns = []string{"abs(%s)", "ceil(%s)", "floor(%s)", "round(%s)", "roundBank(%s)", "roundCash(%s, 2)", "toInt(%s)", "toFloat(%s)", "toString(%s)", "finite(%s)",
+	"sqrt(%s)", "exp(%s)", "ln(%s)", "log(%s)", "max(%s)", "min(%s)", "max(%s, 1)", "min(1, %s)", "max(1, %s, 100)", "-%s", "+%s", "~%s", "!%s", "!!%s",
+	"(%s + 1)", "(1 + %s)", "(%s - 1)", "(%s * 2)", "(%s / 3)", "(3 / %s)", "(%s % 2)", "(%s & 3)", "(%s | 1)", "(%s ^ 1)", "(%s == 1)", "(%s === %s)", "(%s < 1)", "(%s >= 1)",
+	"(%s ?? 1)", "(%s && 1)", "(%s || 1)", "(%s ? 1 : 2)", "typeof %s", "[%s, %s]", "idf(%s)", "hostf(%s)", "hosti(%s)", "hosts(%s)", "lpad('x', 'y', %s)", "left('abcdef', %s)",
+	"date(2024, %s, %s)", "addDate(date(2024,1,1), %s, 0, %s)"}
+
+func decSnap(d *decimal.Big) string {
+	return fmt.Sprintf("%s/scale%d/prec%d/mode%d/cond%d", d.String(), d.Scale(), d.Context.Precision, d.Context.RoundingMode, d.Context.Conditions)
+}
+
+func judgeMut(c MutCase) *eng.Fail {
+	want, ok := ref.ParseDec(c.Val)
+	if !ok {
+		return eng.F("harness/value", "bad value")
+	}
+	host := map[string]interface{}{
+		"idf":   func(x interface{}) (interface{}, error) { return x, nil },
+		"hostf": func(x float64) (float64, error) { return x, nil },
+		"hosti": func(x int) (int, error) { return x, nil },
+		"hosts": func(x string) (string, error) { return x, nil },
+	}
+	// (1) a number held in a local
+	src := "[$r = " + c.Val + ", " + strings.Replace(c.Fn, "%s", "$r", -1) + ", $r]"
+	data := map[string]interface{}{}
+	for k, v := range host {
+		data[k] = v
+	}
+	o, perr := evalSrc(src, data)
+	if perr != nil {
+		return eng.F("C07/parse", "%s: %v", src, perr)
+	}
+	if o.panicked {
+		return eng.F("C07/panic", "%s: %s", src, o.panicMsg)
+	}
+	if o.err == nil {
+		arr, _ := o.val.([]interface{})
+		if len(arr) != 3 {
+			return eng.F("C07/eval", "%s: %s", src, show(o.val))
+		}
+		for _, i := range []int{0, 2} {
+			d, ok := decOf(arr[i])
+			if !ok || !d.Finite() || d.Cmp(want) != 0 {
+				return eng.F("C07/operand-mutated", "%s: the local holds %s afterwards (element %d), it was bound to %s", src, show(arr[i]), i, c.Val)
+			}
+		}
+	}
+	if v, ok := data["$r"]; ok {
+		if d, ok := decOf(v); !ok || !d.Finite() || d.Cmp(want) != 0 {
+			return eng.F("C07/operand-mutated", "%s: $r in the data map is %s afterwards, it was bound to %s", src, show(v), c.Val)
+		}
+	}
+	// (2) caller-supplied objects
+	num, _ := new(decimal.Big).SetString(c.Val)
+	nums := []interface{}{decimal.New(3, 0), decimal.New(1, 0), num}
+	strs := []interface{}{"b", "a", "c"}
+	rows := []map[string]interface{}{{"k": "r1"}, {"k": num}}
+	cdata := map[string]interface{}{"d": num, "ns": nums, "ss": strs, "rows": rows}
+	for k, v := range host {
+		cdata[k] = v
+	}
+	snap := func() string {
+		var b strings.Builder
+		b.WriteString(decSnap(num))
+		for _, n := range nums {
+			b.WriteString(" " + decSnap(n.(*decimal.Big)))
+		}
+		fmt.Fprintf(&b, " %v %v %d %d %d", strs, rows[0]["k"], len(nums), len(strs), len(rows))
+		return b.String()
+	}
+	before := snap()
+	for _, f := range []string{strings.Replace(c.Fn, "%s", "d", -1), "max(ns...)", "min(ns...)", "join(ss, ',')", "includes(ss, 'a')", "mapToArr(rows, 'k')", "[ns, ss]", "max(ns...) + min(ns...)"} {
+		o, perr := evalSrc(f, cdata)
+		if perr != nil {
+			return eng.F("C07/parse", "%s: %v", f, perr)
+		}
+		if o.panicked {
+			return eng.F("C07/panic", "%s: %s", f, o.panicMsg)
+		}
+		if after := snap(); after != before {
+			return eng.F("C07/caller-object-mutated", "%s changed a caller-supplied object\n  before: %s\n  after:  %s", f, before, after)
+		}
+	}
+	outcome("mut " + c.Fn)
+	return nil
 }
 
 // ---- reference values -------------------------------------------------------
@@ -577,6 +671,21 @@ func runC07(w *eng.W) {
 				c07Prog.Do(w, c)
 			}
 		})
+	}
+	// operators and builtins must not modify their operands
+	for _, fn := range c07Fns {
+		if !w.Take() {
+			continue
+		}
+		for _, v := range []string{"2.75", "-2.5", "7", "0.001", "2", "12.50", "9007199254740993.5"} {
+			w.State(1)
+			w.Trans(1)
+			w.Trace(1)
+			w.Note("operand_mutation", 1)
+			c := MutCase{Fn: fn, Val: v}
+			w.Sample("operand-mutation", c)
+			c07Mut.Do(w, c)
+		}
 	}
 	// forbidden targets
 	lhs := []string{"x", "$a.b", "m.k", "($a)", "1", "'s'", "f()", "[$a]", "$a + 1", "this", "true", "-$a", "y", "s", "null", "$a!.b", "typeof $a", "this.x", "a$"}
